@@ -445,7 +445,7 @@ class Gen:
 
     def func(self, depth):
         return ["func", self.row(depth, 2), self.row(depth, 2),
-                self.r.sample(REQS, self.r.choice([0, 0, 1, 2]))]
+                self.r.sample(REQS, self.r.choice([0, 0, 1, 2, 3]))]   # sample(): unsorted, order is part of the document
 
     def ty(self, depth):
         r = self.r
@@ -581,7 +581,7 @@ def gen_poly(r, g, depth=1, force_poly=None):
                 row.append(g.ty(depth))
         return row
 
-    body = ["func", vrow(3), vrow(3), r.sample(REQS, r.choice([0, 0, 1]))]
+    body = ["func", vrow(3), vrow(3), r.sample(REQS, r.choice([0, 0, 1, 2, 3]))]
     targs = []
     for p in params:
         if p[0] == "L" and p[1][0] == "T":
